@@ -35,7 +35,8 @@ func (m *Model) AddChild(child *traits.Child) {
 	if err := validateChild(child); err != nil {
 		panic(err)
 	}
-	_, _ = m.children.Add(child.Name, child)
+	// (the name is the model's to write, whatever writable fields the collection was configured with)
+	_, _ = m.children.Add(child.Name, child, resource.WithMoreWritablePaths("name"))
 }
 
 func validateChild(child *traits.Child) error {
@@ -69,6 +70,7 @@ retry:
 	created = false
 	msg, err := m.children.Update(name, &traits.Child{Name: name},
 		resource.WithCreateIfAbsent(),
+		resource.WithMoreWritablePaths("name"),
 		resource.WithCreatedCallback(func() {
 			created = true
 		}),
